@@ -11,12 +11,13 @@ import (
 // Fragment simulates windows [k·f, (k+1)·f) and cuts the cues that contain a window boundary.
 // Three structural necessary conditions of "no cue strictly contains a multiple of f" on lists
 // whose cues overlap or nest:
-//  (a) the sweep runs until the end of the cue that ends last: its bound is computed by a scan over
-//      all cues, it is not the EndAt of one designated element (the last listed cue need not end last);
-//  (b) the window advances by exactly f on every trip (a jump over several windows skips the
-//      multiples inside a cue that is still running);
-//  (c) the inner loop does not insert into the slice a `range` clause is iterating: the range keeps
-//      the length it saw at the start, so the cues pushed beyond it are not visited for that boundary.
+//
+//	(a) the sweep runs until the end of the cue that ends last: its bound is computed by a scan over
+//	    all cues, it is not the EndAt of one designated element (the last listed cue need not end last);
+//	(b) the window advances by exactly f on every trip (a jump over several windows skips the
+//	    multiples inside a cue that is still running);
+//	(c) the inner loop does not insert into the slice a `range` clause is iterating: the range keeps
+//	    the length it saw at the start, so the cues pushed beyond it are not visited for that boundary.
 func ruleFragmentSweep(p *Prog, l *Ledger, tier string) {
 	const rule = "E14.M7-fragment-sweep"
 	const name = "Subtitles.Fragment"
@@ -97,10 +98,29 @@ func ruleFragmentSweep(p *Prog, l *Ledger, tier string) {
 	case bound == nil:
 		l.Undecide(rule, name, keyA, "", "the exit test of the sweep does not compare a window variable with a bound")
 	default:
+		// a bound computed by a helper: look at what the helper returns
+		boundLoops := loops
+		if c, ok := bound.(*ssa.Call); ok {
+			if sc := c.Call.StaticCallee(); sc != nil && p.inScope(sc) && len(sc.Blocks) > 0 {
+				var results []ssa.Value
+				for _, b := range sc.Blocks {
+					if r, ok := b.Instrs[len(b.Instrs)-1].(*ssa.Return); ok && len(r.Results) == 1 {
+						results = append(results, r.Results[0])
+					}
+				}
+				boundLoops = loopsOf(sc)
+				for _, r := range results {
+					if _, isConst := r.(*ssa.Const); isConst && len(results) > 1 {
+						continue // the empty-list answer
+					}
+					bound = r
+				}
+			}
+		}
 		if t, fld, base := loadedField(bound); t == "Item" && fld == "EndAt" {
 			// the EndAt of one element: which one?
 			l.Fail(rule, name, keyA, p.Pos(bound.Pos()), fmt.Sprintf("%s: the sweep stops at the end of one designated cue (%s.EndAt). On a start-ordered list the last cue need not be the one that ends last ([0,9) then [1,2)): the rest of a longer, earlier cue is never cut", name, descOf(base)))
-		} else if ph, ok := bound.(*ssa.Phi); ok && maxScanOverItems(ph, loops) {
+		} else if ph, ok := bound.(*ssa.Phi); ok && maxScanOverItems(ph, boundLoops) {
 			l.Prove(rule, name, keyA, p.Pos(ph.Pos()), "the bound is the maximum of EndAt accumulated by a loop over all cues")
 		} else {
 			l.Undecide(rule, name, keyA, p.Pos(bound.Pos()), "the bound of the sweep ("+descOf(bound)+") is neither one cue's EndAt nor a maximum accumulated over all cues")
@@ -149,7 +169,7 @@ func ruleFragmentSweep(p *Prog, l *Ledger, tier string) {
 			l.Fail(rule, name, key, bad, fmt.Sprintf("%s assigns %s at %s inside a `range` over it: the range clause keeps the slice (and length) it evaluated at the start, so after an insertion the last elements are not visited in this pass and the boundary is not cut in them", name, loc, bad))
 		}
 	}
-	l.Min(rule, len(windowPhis)+1, 3)
+	l.Min(rule, len(windowPhis)+1, 2)
 }
 
 // maxScanOverItems: ph is the exit value of a loop that keeps the larger of ph and a cue's EndAt.
